@@ -27,7 +27,7 @@ ID = 'C08'
 
 MANIFEST = dict(
     technique='explicit-state exploration of all page-processing histories on long-lived real PageDecoder / PageParser objects x decoder configurations; differential oracle against a fresh instance; parallel mode modelled as share-nothing deep copies over all task assignments, plus a real multi-process conformance run',
-    text='Bounded exhaustive: every history of up to 3 (quick) / 4 (thorough) pages over a 6-page alphabet on one PageDecoder in 12 configurations (greedy, beam, beam+LM, beam+LM with carried state x confidence threshold None/0.5/0) and over a 4-page image alphabet on one PageParser in 4 configurations; the last page of every history must come out exactly as from a fresh instance (transcriptions, confidences, logits). Every assignment of every 3-page batch to two fork-time copies must equal the sequential run, and parse_folder --process-count 2 must write the same PAGE XML and line crops as --process-count 1 (model-free stage, as the tool supports).',
+    text='Bounded exhaustive: every history of up to 3 (quick) / 4 (thorough) pages over a 6-page alphabet on one PageDecoder in 18 configurations (greedy, beam, beam+LM and beam-1+LM with and without carried state x confidence threshold None/0.5/0) and over a 5-page image alphabet on one PageParser in 4 configurations; the last page of every history must come out exactly as from a fresh instance (transcriptions, confidences, logits). Every assignment of every 3-page batch to two fork-time copies must equal the sequential run, and parse_folder --process-count 2 must write the same PAGE XML and line crops as --process-count 1 (model-free stage, as the tool supports).',
     note='OS scheduling of real worker processes is modelled (share-nothing copies), not explored; toy LM; the CNN layout engine\'s adaptive down-sampling state needs a trained network and is not covered.',
     ref='3/C08')
 
@@ -43,7 +43,7 @@ LINES = {
 }
 PAGES = {'A': ['X1', 'K', 'X2'], 'B': ['X1', 'K', 'X3'], 'C': ['K', 'K2'], 'D': [], 'E': ['X2'], 'F': ['X1', 'X3']}
 PAGE_IDS = sorted(PAGES)
-DEC_CFGS = ['greedy', 'beam', 'beam_lm', 'beam_lm_carry']
+DEC_CFGS = ['greedy', 'beam', 'beam_lm', 'beam_lm_carry', 'beam1_lm', 'beam1_lm_carry']
 THRESHOLDS = [None, 0.5, 0.0]
 # page alphabet for the PageParser driver: painted lines (y, x0, symbols)
 IMG_PAGES = {
@@ -51,6 +51,7 @@ IMG_PAGES = {
     'Q': [(12, 10, ['ab', 'ab', '_', 'ba']), (40, 30, ['c', '_', 'c'])],
     'R': [(20, 5, ['a', 'b', 'c', 'a', 'b', 'c'])],
     'S': [],
+    'T': [(20, 5, ['c', 'b', 'a', 'c', 'b'])],        # one line, narrower than R's but with the same padded batch width
 }
 IMG_IDS = sorted(IMG_PAGES)
 PARSER_CFGS = ['greedy', 'beam', 'beam_thr', 'lm_carry']
@@ -119,8 +120,8 @@ def make_page_decoder(dc, th):
     elif name == 'beam':
         dec = CTCPrefixLogRawNumpyDecoder(LETTERS, 4)
     else:
-        dec = CTCPrefixLogRawNumpyDecoder(LETTERS, 4, lm=stubs.make_lm_wrapper(0, LETTERS[:-1]), lm_scale=1.0)
-    return PageDecoder(dec, line_confidence_threshold=THRESHOLDS[th], carry_h_over=(name == 'beam_lm_carry'))
+        dec = CTCPrefixLogRawNumpyDecoder(LETTERS, 1 if name.startswith('beam1') else 4, lm=stubs.make_lm_wrapper(0, LETTERS[:-1]), lm_scale=1.0)
+    return PageDecoder(dec, line_confidence_threshold=THRESHOLDS[th], carry_h_over=name.endswith('carry'))
 
 
 def make_logit_page(pid):
@@ -165,7 +166,7 @@ def check_dec(case, ctx):
                       f'decoder {DEC_CFGS[dc]}, threshold {THRESHOLDS[th]}: page {hist[-1]} after history {hist[:-1]} decodes to {res}, '
                       f'alone to {fresh} (previous page {prev})')
         return
-    if len(hist) >= 2 and PAGES[hist[-2]] and DEC_CFGS[dc] == 'beam_lm_carry' and PAGES[hist[-1]]:
+    if len(hist) >= 2 and PAGES[hist[-2]] and DEC_CFGS[dc].endswith('carry') and PAGES[hist[-1]]:
         ctx.nontrivial((dc, th, tuple(hist)), 'predecessor-left-lm-context')
     if len(hist) >= 2 and hist[-1] == hist[-2]:
         ctx.tag('same-page-twice')
